@@ -57,6 +57,7 @@ CHECKS = {
     },
     "C08": {
         "suites": [{"suite": "catchup", "n_quick": 64, "n_thorough": 1200, "shards": 8, "shards_thorough": 16}],
+        "also_props": ["C20_wiring.v"],
         "monitor_props": ["C08"],
         "mismatch_kinds": ["update", "validate", "page"],
         "rule": "catchup suite: a real serving node with a chain of 2..25 blocks built from wallet-style transactions, page sizes 3..12, and a real catching-up node starting from a one-block prefix, a longer prefix or a short private chain; sync rounds are counted against 1 + ceil(|C|/(page-1)); Blocks(h) is swept over h in [0, n+2] and at 2^63, 2^64-1 and around 2^64-page, and compared with the model's blocks_page; distinct by (start kind, page size, chain length, start length)",
@@ -86,6 +87,7 @@ CHECKS = {
     },
     "C18": {
         "suites": [{"suite": "wallet", "n_quick": 240, "n_thorough": 6000, "shards": 8, "shards_thorough": 16}],
+        "also_props": ["C20_wiring.v"],
         "monitor_props": ["C18"],
         "rule": "wallet suite: the real InfoController over httptest, its Sender backed by a real validator whose wallet holds 1..300 outputs (equal values, zero-valued, yielding or not); amounts 0, balance-fee, just above, one output exactly, beyond, random; both consolidation modes; clock anywhere in the slot; the answer is compared with the model's tx_info and the transaction built from it is submitted to the real pool and a block is produced; up to three payments in a row on one validator (a third of them to the wallet itself), clock readings on the first and last instant of a slot, the validator reached through its real handlers, the set-up payment itself checked; distinct by (amount kind, mode, holdings, status)",
         "trusted_base": ["Utxo.Value (binary64) is an oracle: the holdings' values at the next block time are recorded from the run", "net/http, gin and strconv.Atoi are outside the model"],
@@ -93,6 +95,7 @@ CHECKS = {
     },
     "C19": {
         "suites": [{"suite": "views", "n_quick": 240, "n_thorough": 6000, "shards": 8, "shards_thorough": 16}],
+        "also_props": ["C20_wiring.v"],
         "monitor_props": ["C19"],
         "rule": "views suite: the real AmountController and ProgressController over httptest, their Sender backed by a live validator walked through a transaction's life (unknown, pooled, in the tip block, confirmed, spent again) or failing at one chosen step (utxos, first-block timestamp, blocks, pool, undecodable body); the validator answers through its real handlers and, in some cases, really re-syncs onto an older chain between two requests; income-only holdings and balances asked for much later; distinct by (stage, injected fault, outcome)",
         "trusted_base": ["the final float64 division of the balance and JSON formatting are recomputed by the harness with math/big, not modelled"],
@@ -117,6 +120,7 @@ CHECKS = {
     },
     "C04": {
         "suites": chain_suites(4, extra=[{"suite": "forks", "n_quick": 96, "n_thorough": 3000, "shards": 8, "shards_thorough": 16, "seed_off": 4}]),
+        "also_props": ["C20_wiring.v"],
         "monitor_props": ["C04"],
         "mismatch_kinds": ["validate", "update"],
         "rule": CHAIN_RULE + " For C04 the mutated neighbors break one rule at one height: timestamp shifted, tail in the future, two rewards, no reward, transaction dated after its block or before the previous one, broken link, truncated, first block dropped; production ticks are aligned, repeated, skipped and (for the correspondence only) unaligned or dated before the tip. The forks suite adds multi-neighbor rounds (isolation scenario) and rounds stamped by a real verification Engine while a neighbor already serves the next tick's block: the held tip is never dated after the node's clock.",
@@ -165,6 +169,7 @@ CHECKS = {
     },
     "C13": {
         "suites": [{"suite": "faults", "n_quick": 160, "n_thorough": 1200, "shards": 8, "shards_thorough": 16}],
+        "also_props": ["C20_wiring.v"],
         "monitor_props": ["C13"],
         "mismatch_kinds": ["update", "validate", "admit", "regsync"],
         "rule": "faults suite: host chains of 0, 1, 2, 3, 4, 6 blocks (with pending removals), 5-7 consecutive sync rounds, each with 1-8 neighbors drawn from: error, silence beyond the timeout, garbage, empty answer, a chain with one rule broken at one position (16 kinds), answers that change between the incremental and the full request, honest; every round is compared with the model; monitors: a kept round leaves the complete state digest unchanged, the round returns within 2*n*timeout + 1 s, runtime.NumGoroutine returns to its baseline; distinct by (host length, fault assignment, outcome)",
@@ -176,7 +181,9 @@ CHECKS = {
         "suites": [{"suite": "race", "bin": "./bin/rvharness_race", "race": True, "n_quick": 24, "n_thorough": 400, "shards": 8, "shards_thorough": 16,
                     "eval": "true"},
                    {"suite": "place", "n_quick": 42, "n_thorough": 840, "shards": 4, "shards_thorough": 16, "eval": "true"},
-                   {"suite": "sweep", "n_quick": 512, "n_thorough": 16384, "shards": 8, "shards_thorough": 16}],
+                   {"suite": "sweep", "n_quick": 512, "n_thorough": 16384, "shards": 8, "shards_thorough": 16},
+                   # two wallets posting to one access node at the same moment
+                   {"suite": "wallet", "n_quick": 16, "n_thorough": 64, "shards": 2, "shards_thorough": 4, "seed_off": 16}],
         "monitor_props": ["C16"],
         "lockset_query": True,
         "rule": "race suite (binary built with -race): on one real node, two goroutines submit transactions (including one transaction three times), one issues queries (pool, blocks, outputs, timestamps, registration), one produces blocks, one runs sync rounds against a second real node that produces competing blocks, one refreshes the registry, for 40-80 ms; at quiescence the chain monitors (C01-C04, C07, C10) run and admitted transactions are counted in chain + pool; any race-detector report is a violation. The place suite puts one operation inside another deterministically, by wrapping the injected collaborators: seven placements: a submission while a production tick is at its AddBlock call (the admitted transaction must be found exactly once in chain + pool); a production tick, and two production ticks, while a sync round is between verification and commit; a sync round while AddBlock consults the registry; a sync round after a production tick has read the tip and before it builds its block; the same with a pooled transaction that the adopted chain has already confirmed, so that the tick rejects it and is then refused by AddBlock ; a freshly started node adopting an older chain with the same tip time inside its tick (each time the quiescent state must satisfy C01-C07 and the pool must hold submitted transactions only, none twice, no reward). The sweep suite runs two operations of one real node (production tick, submission, sync round, registry refresh; eight ordered pairs) in two goroutines under a scheduler that decides at every collaborator call which of the two goes on (schedules of up to five segments; a thread waiting for a lock held by the paused one is detected and the other let on), in four worlds (a neighbor that extends the host's chain, a competing tip of equal height, a freshly started node facing an older chain, a deeper and longer fork) with pooled transactions that the neighbor's chain already confirms or that spend the host's own tip; the quiescent state is judged by the monitors, and every run whose switches fall on the call boundaries of the Gallina machine model/Interleave.v (V1..V4, A1..A4, U1..U3) is replayed on that machine: results of the operations and the final state (digest) must agree. The static part regenerates the access table and lock-order edges from the source on every run; distinct by (blocks, submissions, pool size)",
@@ -187,7 +194,9 @@ CHECKS = {
                         "operation-level interleavings are proved linearisable at the granularity of collaborator calls (model/Interleave.v, C16_interleave.v) for schedules in which no sync round changes the chain state while a tick or a submission is in flight; outside that condition the statement is refuted (known finding stale-tick-view); schedules finer than the machine (a call taking effect inside AddBlock or inside the commit) and registry refreshes are judged by the monitors only: partial"],
     },
     "C15": {
-        "suites": [{"suite": "wire", "n_quick": 96, "n_thorough": 2400, "shards": 8, "shards_thorough": 16}],
+        "suites": [{"suite": "wire", "n_quick": 96, "n_thorough": 2400, "shards": 8, "shards_thorough": 16},
+                   # whole lives of a node: what it serves for an id stays the content the id was computed from
+                   {"suite": "chain", "mode": "mixed", "args": "-mode mixed", "n_quick": 32, "n_thorough": 800, "shards": 4, "shards_thorough": 16, "seed_off": 15}],
         "monitor_props": ["C15"],
         "rule": "wire suite: (a) every block of real chains (real transactions, registry removals) served by a node is compared byte for byte with the model's printer and hash for hash / id for id with the model's SHA-256; (b) JSON text is fed to the real decoders and to the model's decoders (through a JSON reader in the OCaml glue): synthetic transactions with empty/absent lists, extreme integers, non-ASCII / HTML-special / control characters in addresses, upper-case hex, leading-zero signatures, unknown, reordered, case-varied and duplicated keys, wrong ids; block lists mutated at every schema position with every fault kind; accept/reject and the re-encoded bytes must agree; (c) monitors: decode/encode stability, same id and hash after a round trip, 'has a reward' iff no input; (d) every eighth case serves the node through the real Host over loopback TCP (golang-p2p) and asks all seven endpoints through the real client. The endpoint binding table is regenerated from source (tools/genendpoints) and checked by C15_endpoints. One blocks answer is held while the next requests are answered: its bytes must not change. distinct by JSON text",
         "trusted_base": ["bytes <-> JSON tree: Go's lexer on one side, ocaml/jsonp.ml on the other (tested against each other, not proved)", "crypto.UnmarshalPubkey (on-curve test) is an oracle", "golang-p2p framing (gob, RSA/AES handshake) is exercised end to end, not modelled",
@@ -196,6 +205,7 @@ CHECKS = {
     },
     "C05": {
         "suites": [{"suite": "accept", "n_quick": 160, "n_thorough": 4000, "shards": 8, "shards_thorough": 16}],
+        "also_props": ["C20_wiring.v"],
         "monitor_props": ["C05"],
         "mismatch_kinds": ["update", "validate", "admit", "regsync"],
         "rule": "accept suite: a real producer whose pool holds anything an honest pool may hold (spends of confirmed, last-block and same-pool outputs, boundary fees and dates, yielding outputs to registered, new and just-removed addresses) produces a block; three real peers that hold the same chain receive it as an extension of their tip, as a competitor to their own tip produced on the same tick, and in a full re-sync from an unrelated short chain; the monitor requires the producer's answer to pass verification in each context; the peers' whole lives are recorded and compared with the model; one case in sixteen takes the production tick from a real Engine whose period is ValidationTimer() of the decoded settings (interval 2 s, timeout 1 s); distinct by (context, spend kind, outcome, pool contents)",
